@@ -169,6 +169,10 @@ def load(case):
                     pass
             loaded = Sequence.sequences_load(midi_file=mfo, track_indices=[list(g) for g in groups],
                                              meta_track_indices=list(meta), target_meta_track_index=target)
+        elif list(meta) == list(range(len(tracks))) and idx % 2:
+            # every track may carry meta messages: that is the default, the argument is left out
+            loaded = Sequence.sequences_load(file_path=path, track_indices=[list(g) for g in groups],
+                                             target_meta_track_index=target)
         else:
             loaded = Sequence.sequences_load(file_path=path, track_indices=[list(g) for g in groups],
                                              meta_track_indices=list(meta), target_meta_track_index=target)
@@ -256,7 +260,7 @@ def random_routing(rng, ntracks):
     groups = [[] for _ in range(ng)]
     for j, t in enumerate(used):
         groups[j if j < ng else rng.randrange(ng)].append(t)
-    meta = [t for t in range(ntracks) if rng.random() < .5]
+    meta = [t for t in range(ntracks) if rng.random() < .5] if rng.random() < .8 else list(range(ntracks))
     return groups, meta, rng.randrange(ng)
 
 
